@@ -335,6 +335,18 @@ def gen_cases(tier, seed):
         spec = {'seed': rng.randrange(1 << 30), 'config': cfg, 'transfers': [{'kind': 'download', 'dst': 'nonseekable', 'size': size}], 'family': 'partial-write',
                 'plan': {'faults': [{'at': f't0/dst:write#{rng.randrange(0, 4)}', 'phase': 'before', 'kind': 'blockingio', 'tag': 'FAULT-blocking'}]}}
         cases.append({'type': 'e2e', 'spec': spec})
+    # real-scale blocks: io_chunksize (the size of the blocks handed to the destination) above and around 1 MiB, objects of a few MiB,
+    # single-request and ranged
+    MB = 1024 * 1024
+    for i in range(8 if quick else 40):
+        ioc = rng.choice([MB + 1, 2 * MB, 3 * MB, MB - 1, 256 * 1024])
+        size = rng.choice([MB + 1, 2 * MB, 3 * MB + 5, 2 * MB + 1])
+        ranged = rng.random() < 0.4
+        cfg = dict(io_chunksize=ioc, max_request_concurrency=rng.choice([1, 2, 3]), max_in_memory_download_chunks=rng.choice([2, 3]))
+        if ranged:
+            cfg.update(multipart_threshold=MB, multipart_chunksize=rng.choice([MB, MB + MB // 2]))
+        t = {'kind': 'download', 'dst': rng.choice(['nonseekable', 'nonseekable', 'fifo']), 'size': size}
+        cases.append({'type': 'e2e', 'spec': {'seed': rng.randrange(1 << 30), 'config': cfg, 'transfers': [t], 'plan': {}, 'real': True, 'family': 'real-scale-blocks'}})
     for c in cases:
         if c['type'] == 'mgr' and c['mode'] == 'immediate':
             c['parts'] = 1
